@@ -35,6 +35,8 @@ SEED = int(arg('--seed', '1'))
 FILES = [f for f in arg('--files', '').split(',') if f]
 OUT = arg('--out', '/verif/selftest')
 OPS = [o for o in arg('--ops', '').split(',') if o]
+# excluded by default: the element data table (numbers with no static oracle: DESIGN.md 11.2, C03) and the namespace stub
+EXCLUDE = [f for f in arg('--exclude', 'referencedata/_data.py,atsim/__init__.py').split(',') if f]
 
 
 def source_files():
@@ -45,6 +47,8 @@ def source_files():
                 p = os.path.join(root, f)
                 rel = os.path.relpath(p, REPO)
                 if FILES and not any(x in rel for x in FILES):
+                    continue
+                if any(x in rel for x in EXCLUDE):
                     continue
                 out.append(rel)
     return sorted(out)
